@@ -106,6 +106,13 @@ def history(sym, op, n, bs, cache, H, nslots, fail=False, prefix=()):
         if view is not None and not fail:
             later = [tuple(r) for r in view]
             check(later == ref, 'later pass differs', trace, later, ref)
+        if view is not None and fail:
+            # after a failed pass a later pass either fails again or is complete and correct - never a partial table
+            try:
+                later = [tuple(r) for r in view]
+            except SourceFailure:
+                later = None
+            check(later is None or later == ref, 'a pass after a failed one yields a partial / wrong table', trace, later, ref)
         # release everything
         its = None
         view = None
